@@ -244,4 +244,19 @@ theorem genDet_error_iff (H : Bytes → Bytes) (seed : Bytes) (n : Nat) :
     · have : seed ≠ [] := by intro h; simp [h] at hs
       simp [hn, hs, this]
 
+/-! ### non-vacuity -/
+
+/-- the hypotheses of the key-validity theorems are met by concrete keys: G's encoding is accepted and
+decompresses to G (no primality hypothesis needed for a concrete point), 1 and n−1 are valid secrets,
+0, n and an off-curve abscissa are rejected with the documented error. -/
+example : newPubKey (compress G) = .ok () ∧ parsePub (compress G) = some G := by decide +kernel
+example : newSecKey (toBE32 1) = .ok () ∧ newSecKey (toBE32 (N - 1)) = .ok () := by decide +kernel
+example : newSecKey (toBE32 0) = .err (E "ErrInvalidSecKey") ∧ newSecKey (toBE32 N) = .err (E "ErrInvalidSecKey") ∧
+    newSecKey [1, 2, 3] = .err (E "ErrInvalidLengthSecKey") := by decide +kernel
+example : newPubKey (2 :: toBE32 5) = .err (E "ErrInvalidPubKey") ∧ newPubKey (2 :: toBE32 P) = .err (E "ErrInvalidPubKey") ∧
+    newPubKey (4 :: toBE32 Gx) = .err (E "ErrInvalidPubKey") := by decide +kernel
+/-- the deterministic sequence with a toy hash: 2 keys are a prefix of 3 -/
+def toyH : Bytes → Bytes := fun x => toBE32 (ofBE x % 1000003 + x.length + 7)
+example : (genKeys toyH 2 [1, 2, 3]).2 = (genKeys toyH 3 [1, 2, 3]).2.take 2 := detKeySeq_prefix toyH [1, 2, 3] 2 3 (by decide)
+
 end Sky.Props.C14
